@@ -72,6 +72,10 @@ def cases(tier, seed):
                 continue
             out.append({"kind": "defs", "cls": "defs:" + cls, "entry": cls, "idx": idx, "seed": seed, "struct": True, "maxd": 8, "dims": list(dims)})
             idx += 1
+    for dims in ([(3, 40), (2, 30), (40, 3), (4, 64), (30, 2), (5, 33)] if tier == "quick" else [(3, 40), (2, 30), (40, 3), (4, 64), (30, 2), (5, 33), (2, 9), (9, 2), (8, 65), (65, 8)]):
+        for cls in ("spike_vs_flat", "spike_vs_flat_T"):
+            out.append({"kind": "defs", "cls": "defs:" + cls, "entry": cls, "idx": idx, "seed": seed, "struct": True, "maxd": 8, "dims": list(dims)})
+            idx += 1
     for rep in range(24 if tier == "quick" else 600):
         out.append({"kind": "ineq", "cls": "ineq", "idx": rep, "seed": seed, "maxd": 6 if tier == "quick" else 12})
     out.append({"kind": "ords", "cls": "ords", "seed": seed})
